@@ -4,7 +4,7 @@ import core, lib
 from core import call_matches, call_names, op_place, op_local, backward_slice
 from props import shared
 
-LEVEL = 'proof'
+LEVEL = 'other'
 FLOOR = 30      # 70% of the 43 obligation instances derived on the tree the rules were last reviewed against
 EXPLANATION = ('A commit that dereferences a tree is planned (Log::begin_record) only on the not-deferred edge; deferral is decided from RwLock::is_locked of '
                'the registered reader and from the used_trees of queued commits; the reader registry is only ever extended (under its write lock), never '
@@ -159,6 +159,7 @@ def run(ctx):
     shared.handover_order(ctx, '3')
     # once the lock is released the postponed removal completes: the log worker keeps going while a deferred commit is queued
     shared.more_work_signal(ctx, '3w')
+    shared.deferral_is_surgical(ctx, '3')
     dc = ctx.body('db::DbInner::defer_commit')
     if dc:
         sites = lib.sites_reaching(dc, [shared.COPY_IDX, shared.COPY_BT, shared.CLEAN_IDX, shared.CLEAN_BT])
